@@ -165,8 +165,17 @@ Definition exec_node (n : node) (s : state) : res state :=
   end.
 
 (* ---- construction (all nodes are built before the first one runs) ------------------ *)
+(* a generated processor whose parameter list names one parameter twice cannot get a signature
+   (inspect.Signature raises ValueError "duplicate parameter name"): a sweep whose from_context key is
+   spelled like an unbound parameter of the swept element, or two variables reading one key *)
+Fixpoint first_dup (l : list string) : option string :=
+  match l with [] => None | x :: tl => if smem x tl then Some x else first_dup tl end.
+
 Definition construct (n : node) : res unit :=
   let p := n_proc n in
+  match first_dup (pr_params p) with
+  | Some x => Fail (Err SConstruct "ValueError" x)
+  | None =>
   match pr_kind p, n_ckey n with
   | KProbe, None => Fail (Err SConstruct "PipelineConfigurationError" "context_key")
   | _, _ =>
@@ -175,6 +184,7 @@ Definition construct (n : node) : res unit :=
            | [] => Ok tt
            | kv :: _ => Fail (Err SConstruct "InvalidNodeParameterError" (fst kv))
            end
+  end
   end.
 
 (* ---- running a pipeline ---------------------------------------------------------------- *)
